@@ -89,7 +89,7 @@ func (fr *Frame) wfAlloc(v Term, t types.Type, alloc Term, depth int) Term {
 		return sx("<=", v, alloc)
 	case *types.Slice:
 		return and(sx("<=", "0", sx("sarr", v)), sx("<=", sx("sarr", v), alloc), sx("<=", "0", sx("soff", v)), sx("<=", "0", sx("slen", v)),
-			sx("<=", sx("slen", v), sx("scap", v)), imp(eq(sx("sarr", v), "0"), and(eq(sx("scap", v), "0"), eq(sx("soff", v), "0"))))
+			sx("<=", sx("slen", v), sx("scap", v)), sx("<=", sx("scap", v), "9223372036854775807"), imp(eq(sx("sarr", v), "0"), and(eq(sx("scap", v), "0"), eq(sx("soff", v), "0"))))
 	case *types.Interface:
 		return and(sx("<=", "0", sx("itag", v)), imp(eq(sx("itag", v), "0"), eq(sx("ival", v), "0")))
 	case *types.Struct:
@@ -371,7 +371,7 @@ func (fr *Frame) locOf(p ssa.Value) *Loc {
 			s := fr.val(pv.X)
 			i := fr.val(pv.Index)
 			hn, hs := U.elemHeapT(xtt.Elem())
-			return &Loc{kind: "elem", heap: hn, hsort: hs, idx: sx("sarr", s.T), idx2: sx("+", sx("soff", s.T), i.T), typ: xtt.Elem()}
+			return &Loc{kind: "elem", heap: hn, hsort: hs, idx: sx("sarr", s.T), idx2: sx("eidx", sx("soff", s.T), i.T), typ: xtt.Elem()}
 		case *types.Pointer:
 			at := xtt.Elem().Underlying().(*types.Array)
 			ehn, ehs := U.elemHeapT(at.Elem())
@@ -851,7 +851,7 @@ func (fr *Frame) enterLoop(li *loopInfo, ins []edgeIn) {
 		vc.assume(fr.reach, ai.assume)
 	}
 	for _, inv := range invs {
-		t, err := fr.evalSpecBool(inv.Expr, fr.specEnvLoop(li))
+		t, err := fr.evalSpecAssume(inv.Expr, fr.specEnvLoop(li))
 		if err != nil {
 			continue
 		}
